@@ -234,12 +234,30 @@ fn png_strategy() -> BoxedStrategy<PngCase> {
         .boxed()
 }
 
+/// surfaces of more than 16384 pixels that are mostly empty: a few rows of content, the rest exactly zero (what
+/// a drawing on a cleared surface looks like; block-wise or cached conversions show their seams here)
+fn png_big_strategy() -> BoxedStrategy<PngCase> {
+    (130i32..=190, 130i32..=190)
+        .prop_flat_map(|(w, h)| {
+            let px = prop_oneof![4 => px_premul(), 1 => Just(0u32)];
+            (Just(w), Just(h), prop::collection::vec((0..h, prop::collection::vec(px, w as usize..=w as usize)), 1..=6))
+        })
+        .prop_map(|(w, h, rows)| {
+            let mut words = vec![0u32; (w * h) as usize];
+            for (y, row) in rows {
+                words[(y * w) as usize..((y + 1) * w) as usize].copy_from_slice(&row);
+            }
+            PngCase { w, h, words }
+        })
+        .boxed()
+}
+
 pub fn property(_ctx: &Ctx) -> Property {
     Property {
         id: "C19",
-        rule: "part views: sizes 0..9 x 0..9 (rarely 257..300 long or tall, also for part png) with arbitrary pixel words, arbitrary bytes written through get_data_u8_mut, arbitrary a,r,g,b for to_u32; oracle = word/byte layout model (A<<24|R<<16|G<<8|B; bytes B,G,R,A), cross-view visibility and from_vec/from_backing/into_vec/into_inner round trips (owned and borrowed backings; from_vec also with shorter vectors, with and without spare capacity, and longer ones: pixels that fit are kept, missing ones are zero). part png: premultiplied words (alpha-0 pixels with arbitrary colour bytes) written by write_png and decoded with the png crate; oracle = un-premultiply model floor(c*255/a), alpha unchanged, row-major RGBA8. Non-trivial: >=2 distinct pixels, w != h and pairwise different channel bytes (so a channel swap or transposition is visible); distinct by hash of the case.",
+        rule: "part views: sizes 0..9 x 0..9 (rarely 257..300 long or tall, also for part png) with arbitrary pixel words, arbitrary bytes written through get_data_u8_mut, arbitrary a,r,g,b for to_u32; oracle = word/byte layout model (A<<24|R<<16|G<<8|B; bytes B,G,R,A), cross-view visibility and from_vec/from_backing/into_vec/into_inner round trips (owned and borrowed backings; from_vec also with shorter vectors, with and without spare capacity, and longer ones: pixels that fit are kept, missing ones are zero). part png-large: 130..190 px square surfaces (more than 16384 pixels) that are zero except for a few rows, same oracle. part png: premultiplied words (alpha-0 pixels with arbitrary colour bytes) written by write_png and decoded with the png crate; oracle = un-premultiply model floor(c*255/a), alpha unchanged, row-major RGBA8. Non-trivial: >=2 distinct pixels, w != h and pairwise different channel bytes (so a channel swap or transposition is visible); distinct by hash of the case.",
         assumptions: vec!["little-endian target", "the png crate's decoder is trusted"],
-        parts: vec![part_outside_c07("views", 60_000, 600_000, view_strategy, check_views), part("png", 20_000, 200_000, png_strategy, check_png)],
+        parts: vec![part_outside_c07("views", 60_000, 600_000, view_strategy, check_views), part("png", 20_000, 200_000, png_strategy, check_png), part("png-large", 150, 3_000, png_big_strategy, check_png)],
         min_class_fraction: vec![("views", "from_vec:short-nonzero", 0.5), ("png", "translucent", 0.5), ("png", "transparent-with-colour", 0.1)],
         panic_is_violation: false,
     }
